@@ -763,6 +763,8 @@ def evaluate(e, env):
             a = Fraction(int(a))
         if isinstance(b, bool):
             b = Fraction(int(b))
+        if not isinstance(a, (Fraction, D)) or not isinstance(b, (Fraction, D)):
+            raise Inconclusive("arithmetic on a non-numeric constant")
         if op in ("floordiv", "mod"):
             if not (isinstance(a, Fraction) and isinstance(b, Fraction)):
                 raise Inconclusive("integer operation on inexact value")
@@ -799,7 +801,11 @@ def evaluate(e, env):
             return _CTX.power(a, b)
     if op == "neg":
         a = evaluate(e.args[0], env)
-        return -a if not isinstance(a, bool) else Fraction(-int(a))
+        if isinstance(a, bool):
+            return Fraction(-int(a))
+        if not isinstance(a, (Fraction, D)):
+            raise Inconclusive("arithmetic on a non-numeric constant")
+        return -a
     if op in ("max", "min"):
         vals = [evaluate(a, env) for a in e.args]
         vals = [Fraction(int(v)) if isinstance(v, bool) else v for v in vals]
